@@ -294,6 +294,9 @@ func extractC13(c *Ctx) error {
 	if err := c13ConfirmChecks(c); err != nil {
 		return err
 	}
+	if err := c13EvidenceLookup(c); err != nil {
+		return err
+	}
 	return c13BatchRecordWriters(c)
 }
 
@@ -1068,5 +1071,79 @@ func c13Reissue(c *Ctx, bf *ast.File) error {
 		return true
 	})
 	c.P("Definition stale_activation_still_publishes_event : bool := %v.", stale)
+	return nil
+}
+
+// c13EvidenceLookup: the validator the evidence handler jails is found through
+// GetValidatorByEthAddress -> EVMKeeper.GetValidatorAddressByEthAddress, which must consult the
+// LIVE external-chain-info registry (Valset.GetAllChainInfos) and nothing else: first entry whose
+// chain and address match.  A read of any other store (e.g. the valset snapshot, rebuilt only
+// every 50 blocks) is an unknown shape.
+func c13EvidenceLookup(c *Ctx) error {
+	ef, err := c.Parse("x/evm/keeper/keeper.go")
+	if err != nil {
+		return err
+	}
+	fd := FindFunc(ef, "Keeper", "GetValidatorAddressByEthAddress")
+	if fd == nil {
+		return fmt.Errorf("GetValidatorAddressByEthAddress not found")
+	}
+	bad := func(why string) error {
+		return fmt.Errorf("GetValidatorAddressByEthAddress: %s; expected a single walk over k.Valset.GetAllChainInfos(ctx) returning the first entry with the chain and the address", why)
+	}
+	var reads []string
+	ast.Inspect(fd.Body, func(n ast.Node) bool {
+		if ce, ok := n.(*ast.CallExpr); ok {
+			f := c13norm(c, ce.Fun)
+			if strings.HasPrefix(f, "k.") {
+				reads = append(reads, f)
+			}
+		}
+		return true
+	})
+	if strings.Join(reads, ",") != "k.Valset.GetAllChainInfos" {
+		return bad(fmt.Sprintf("keeper reads %v", reads))
+	}
+	if len(fd.Body.List) != 4 {
+		return bad(fmt.Sprintf("%d top-level statements", len(fd.Body.List)))
+	}
+	if c13norm(c, fd.Body.List[0]) != "validatorsExternalAccounts,err:=k.Valset.GetAllChainInfos(ctx)" {
+		return bad("first statement `" + c13norm(c, fd.Body.List[0]) + "`")
+	}
+	outer, ok := fd.Body.List[2].(*ast.RangeStmt)
+	if !ok || c13norm(c, outer.X) != "validatorsExternalAccounts" || len(outer.Body.List) != 1 {
+		return bad("outer loop")
+	}
+	inner, ok := outer.Body.List[0].(*ast.RangeStmt)
+	if !ok || c13norm(c, inner.X) != "validatorExternalAccounts.ExternalChainInfo" || len(inner.Body.List) != 1 {
+		return bad("inner loop")
+	}
+	is, ok := inner.Body.List[0].(*ast.IfStmt)
+	if !ok || c13norm(c, is.Cond) != "chainInfo.GetChainReferenceID()==chainReferenceId&&ethAddr.GetAddress().String()==chainInfo.GetAddress()" ||
+		c13norm(c, is.Body) != "{returnvalidatorExternalAccounts.Address,true,nil}" {
+		return bad("match test / result")
+	}
+	if rs, ok := fd.Body.List[3].(*ast.ReturnStmt); !ok || len(rs.Results) != 0 {
+		return bad("no plain return (not found) at the end")
+	}
+	// the handler goes through it
+	kf, err := c.Parse("x/skyway/keeper/keeper_delegate_key.go")
+	if err != nil {
+		return err
+	}
+	gv := FindFunc(kf, "Keeper", "GetValidatorByEthAddress")
+	if gv == nil || len(Calls(gv.Body, "GetValidatorAddressByEthAddress")) != 1 {
+		return fmt.Errorf("skyway GetValidatorByEthAddress does not go through EVMKeeper.GetValidatorAddressByEthAddress once")
+	}
+	hf, err := c.Parse("x/skyway/keeper/evidence.go")
+	if err != nil {
+		return err
+	}
+	eh := FindFunc(hf, "Keeper", "checkBadSignatureEvidenceInternal")
+	if eh == nil || len(Calls(eh.Body, "GetValidatorByEthAddress")) != 1 {
+		return fmt.Errorf("checkBadSignatureEvidenceInternal does not look the validator up with GetValidatorByEthAddress once")
+	}
+	c.P("(* x/evm/keeper/keeper.go: the evidence handler's validator lookup reads the live external-chain-info registry only *)")
+	c.P("Definition evidence_lookup_is_live_registry : bool := true.")
 	return nil
 }
